@@ -425,10 +425,35 @@ fn layout_script(r: &mut Rng, p: &Prof, stats: &mut BTreeMap<String, u64>) -> (C
         key: format!("{}|layout|{}|{:?}|{:?}", p.name, ssrc, warm, order), kind: "layout".into() }, roc_nonzero)
 }
 
+/// F23 on the sending side, replayed on the real code (thorough tier: needs 61 s of wall clock):
+/// a stream reaches ROC 1, the session then sends on 33 other SSRCs, the first stream stays idle for
+/// `idle` seconds, one more SSRC triggers the eviction; the stream's next packet is then protected
+/// with ROC 0.  Receivers: a rustrtc SrtpContext and webrtc-srtp that saw the stream only.
+fn tx_eviction_replay(idle_secs: u64) -> (bool, bool) {
+    let p = profiles()[0];
+    let km = SrtpKeyingMaterial::new((1..=16).collect(), (1..=14).collect());
+    let ssrc = 0x0BAD_CAFEu32;
+    let mut tx = SrtpSession::new(p.r, km.clone(), km.clone()).unwrap();
+    let mut rx = SrtpContext::new(ssrc, p.r, km.clone(), SrtpDirection::Receiver).unwrap();
+    let mut wrx = webrtc_srtp::context::Context::new(&km.master_key, &km.master_salt, p.w.unwrap(), None, None).unwrap();
+    let mk = |ssrc: u32, s: u16| RtpPacket::new(rustrtc::rtp::RtpHeader::new(96, s, 0, ssrc), vec![1, 2, 3]);
+    for s in [0u16, 32767, 65534, 10] {
+        let R::Ok(raw) = sess_protect(&mut tx, &mk(ssrc, s)) else { return (false, false) };
+        let _ = ctx_unprotect(&mut rx, &raw);
+        let _ = wrx.decrypt_rtp(&raw);
+    }
+    for k in 0..32u32 { let _ = sess_protect(&mut tx, &mk(0x6000_0000 + k, 1)); }
+    std::thread::sleep(std::time::Duration::from_secs(idle_secs));
+    let _ = sess_protect(&mut tx, &mk(0x6000_0000 + 32, 1));
+    let R::Ok(raw) = sess_protect(&mut tx, &mk(ssrc, 11)) else { return (false, false) };
+    (ctx_unprotect(&mut rx, &raw).is_ok(), wrx.decrypt_rtp(&raw).is_ok())
+}
+
 fn main() {
     let args = parse_args();
     silence_panics();
     let thorough = args.tier == "thorough";
+    let evict = if thorough { Some(std::thread::spawn(|| (tx_eviction_replay(61), tx_eviction_replay(1)))) } else { None };
     let mut out = Out::new(&args.out);
     let mut r = Rng::new(args.seed);
     let profs = profiles();
@@ -483,6 +508,14 @@ fn main() {
         let p = &profs[n % profs.len()];
         let (desc, fail, key) = oracle_multi_ssrc(&mut r, p);
         out.push(Case { term: "-".into(), desc, oracle_fail: fail, known: None, nontrivial: true, key, kind: "multi-ssrc".into() });
+    }
+    if let Some(h) = evict {
+        let ((a, w), (a1, w1)) = h.join().unwrap();
+        out.push(Case { term: "-".into(), desc: json!({"kind": "tx-eviction-replay", "idle_s": 61, "accepted_by_rustrtc_receiver": a, "accepted_by_webrtc_srtp": w}),
+            oracle_fail: None, known: if !a && !w { Some("tx_table_pressure_eviction".into()) } else { None }, nontrivial: true, key: "tx-eviction-61".into(), kind: "eviction-replay".into() });
+        out.push(Case { term: "-".into(), desc: json!({"kind": "tx-eviction-replay", "idle_s": 1, "accepted_by_rustrtc_receiver": a1, "accepted_by_webrtc_srtp": w1}),
+            oracle_fail: if a1 && w1 { None } else { Some("34 sending SSRCs without the 60 s idle period already break the first stream".into()) },
+            known: None, nontrivial: true, key: "tx-eviction-1".into(), kind: "eviction-replay".into() });
     }
     out.finish(json!({"generator": {"histories": nh, "histories_by_wraps(max epoch, capped at 20)": wraps, "histories_with_reordering": reordered,
         "packet_shapes": stats, "profiles": profs.iter().map(|p| p.name).collect::<Vec<_>>() }}));
